@@ -596,7 +596,7 @@ func Validate(f *File, vo ValidateOptions) []Issue {
 					}
 					ci.nMsgs++
 				default:
-					if in.Op < 0x80 {
+					if in.Op <= 0x0F {
 						add("grammar", "record op 0x%02x inside chunk at %d", in.Op, r.Offset)
 					}
 				}
@@ -742,7 +742,7 @@ func Validate(f *File, vo ValidateOptions) []Issue {
 				seenChannelsBeforeStats = false
 			}
 		default:
-			if r.Op < 0x80 {
+			if r.Op <= 0x0F {
 				add("grammar", "record op 0x%02x at %d not allowed in summary section", r.Op, r.Offset)
 			}
 		}
@@ -807,6 +807,9 @@ func Validate(f *File, vo ValidateOptions) []Issue {
 	}
 	soSeen := map[byte]bool{}
 	for _, so := range sos {
+		if so.GroupOpcode > 0x0F {
+			continue // groups of unknown records: nothing the specification lets us check
+		}
 		if soSeen[so.GroupOpcode] {
 			add("pointer", "two summary offsets for op 0x%02x", so.GroupOpcode)
 		}
